@@ -13,6 +13,9 @@ CHECKS = {
  "C05": ("exploration", "reference-model monitoring of the transaction pool after every step of generated histories, plus race detector on MineBlock vs submissions",
          "After every pool submission, block, reorg and mined block of generated histories the reported pool sequence is validated transaction by transaction by core/consensus against the pure tip ledger; blocks mined by coreutils.MineBlock are labelled by the pure oracle and must be adopted; every accepted transaction that disappears must be confirmed, have an input spent/reverted in that step (exact ledger differences of the reverted/applied blocks), or be invalid on the new tip under the oracle. MineBlock also runs against concurrent submissions under -race.",
          "Pool-full eviction is not reached; v1 contracts get globally distinct window ends.", "§3 C05"),
+ "C13": ("exploration", "reference-model monitoring of proof rebasing against pure ledgers along path(from->to)",
+         "For PRNG pairs of applied indices on the same or different forks of generated trees and v2 sets valid at 'from' (ephemeral chains, siafund spends, contract formation/revision/renewal/storage proof/expiration), the result of UpdateV2TransactionSet is compared with the expectation computed from the pure ledgers: input minus confirmed in order, each parent element equal to the ledger's leaf index and proof at 'to', ephemeral inputs that became confirmed carry the confirmed element, errors (never panics) for corrupted proofs/leaf indices/unknown bases and for elements that never existed on the target chain; V2TransactionSet ordering/basis/acceptance; caller memory; paths of 1..160 blocks.",
+         "Only indices that were the best tip at some moment are used as from/to (others carry header-only states); an element re-created with the same id on the other fork may be refused (no verdict); spent-at-target gives no verdict.", "§3 C13"),
  "C14": ("exploration", "API-contract monitoring of pool submission/lookup on generated pool states",
          "Generated pool states holding v1 and v2 transactions together; after every submission (fresh, partly known, all known, conflicting with the pool at position k, invalid at position k) the listing is compared with the all-or-nothing expectation, the known flag with its definition, caller memory with its byte image and the pool with itself after scribbling over submitted/returned values; both lookup functions are called with every v1 id, v2 id and random ids under a panic guard.",
          "Transactions are produced and labelled by the pure generator (core/consensus); basis = tip for v2 submissions here (rebasing is C13).", "§3 C14"),
